@@ -38,7 +38,7 @@ CORPUS = [
     "F;B;F:7;B:7;L:b:S;F:7;B:7;B:1;F;C",
     # sparse job ids: the lower-numbered job is gone and reaped, then the higher-numbered one is stopped / resumed
     "L:b:S;L:b:S;K:1;E;F:2;Z;J;B:2;J;F:2;C;J",
-    "L:b:X0;L:b:S,S;E;E;F:2;Z;J;F:2;C",
+    "L:b:S;L:b:S,S;K:1;E;E;F:2;Z;J;F:2;C",     # (a background job that ends BY ITSELF right after its launch races with the prompt's poll: killed explicitly instead)
     "L:b:S;L:b:S;L:b:S;K:1;K:2;E;J;F:3;Z;J;B:3;J;K:3;E;J",
 ]
 
